@@ -48,3 +48,9 @@ pub fn install_hook() {
         }
     }));
 }
+
+pub static MAXN: std::sync::atomic::AtomicUsize = std::sync::atomic::AtomicUsize::new(usize::MAX);
+/// largest length the engines' length loops instantiate in this run (`--maxn`, default: no limit)
+pub fn maxn() -> usize {
+    MAXN.load(std::sync::atomic::Ordering::Relaxed)
+}
